@@ -27,8 +27,9 @@ pub fn strategy() -> BoxedStrategy<Case> {
         choices_strategy(),
         prop::option::weighted(0.6, (aud_nonce_strategy(), aud_nonce_strategy())),
         prop::bool::weighted(0.33),
+        prop::option::weighted(0.4, choices_strategy()),
     )
-        .prop_map(|(issue, ch, kb, arbitrary)| {
+        .prop_map(|(issue, ch, kb, arbitrary, then)| {
             let selection = if arbitrary {
                 match mark(&issue.claims, &issue.strat) {
                     Ok(t) => derive_arbitrary_selection(&t, &mut Choices::new(&ch)),
@@ -38,7 +39,8 @@ pub fn strategy() -> BoxedStrategy<Case> {
                 selection_for(&issue, &ch, SelOpts { allow_null: true })
             };
             let kb = if issue.holder.is_some() { kb.map(|(aud, nonce)| KbArgs { aud, nonce, key: issue.holder }) } else { None };
-            C06Case { issue, selection, kb, arbitrary }
+            let then = then.map(|c| serde_json::Value::Object(selection_for(&issue, &c, SelOpts { allow_null: true })));
+            C06Case { issue, selection, kb, arbitrary, then }
         })
         .boxed()
 }
